@@ -150,6 +150,11 @@ class YosysBehavioralRTLIRToVVisitorL1( BehavioralRTLIRToVVisitorL1 ):
       node.value._top_expr = 1
       value_str = s.visit( node.value )
       cur_nbits = node.value.Type.get_dtype().get_length()
+      # The cast is rendered by the operand itself, a part selection or a
+      # concatenation: a compound operand has to be wrapped, or
+      # `a ^ Bits4( b | 1 )` becomes `a ^ b | 4'd1`, i.e. `( a ^ b ) | 4'd1`.
+      if isinstance( node.value, ( bir.IfExp, bir.UnaryOp, bir.BinOp, bir.Compare ) ):
+        value_str = f"( {value_str} )"
       if cur_nbits == nbits:
         return value_str
       elif cur_nbits > nbits:
